@@ -227,7 +227,7 @@ def all_cases(tier):
     if tier == "thorough":       # value-scale variants of every case whose operands are 'generic'
         for c in cat.cases("quick", "forward"):
             if not c.get("pats") and c["op"] not in ("pow", "rpow", "exp"):
-                for m in ("tiny", "large", "offset"):
+                for m in ("tiny", "large", "offset", "ones") + (() if c["op"] in ("log", "div", "rdiv") else ("zeros",)):
                     extra.append(dict(c, vmod=m))
     return base + extra + ctor_cases() + iter_cases()
 
